@@ -4,6 +4,8 @@ import Driver.Tok
 import Driver.Pat
 import Fzf.Model.Filter
 import Fzf.Spec.Query
+import Fzf.Spec.Reader
+import Fzf.Spec.Ansi
 namespace Driver.Filter
 open Fzf Fzf.Algo Fzf.Pattern Fzf.Rank Fzf.Filter Driver
 
@@ -69,6 +71,54 @@ def run (ctx : Algo.Ctx) (op : String) (args impl : List String) : Outcome :=
             (if nsat ≥ 2 ∧ nsat < items.length then ["nt"] else []) }
     | _, _, _ =>
       { model := "2 reject", tags := ["run", "reject"] }
+  | "proc", [read0, print0, printq, ansi, sort, tac, withnth, delim, q, stream] =>
+    -- the real binary under a pipe: byte stream in, byte stream and exit status out
+    let cfg : Cfg := { U := ctx.unicode, sch := schemeDefault, norm := ctx.norm }
+    let b (x : String) := x == "1"
+    let inDelim := if b read0 then 0 else 10
+    let term := if b print0 then 0 else 10
+    let bs := parseNatList stream
+    let recs := Reader.splitRecords inDelim bs
+    -- --ansi: searchable and printed text is the record with its escape sequences removed
+    let shown := if b ansi then recs.map fun r => (Ansi.Spec.strip r.toArray).toList else recs
+    let withR : Option (List Tokenizer.Range) := if withnth == "-" then none else Tokenizer.splitNth (parseNatList withnth)
+    let o : Opts := {
+      cfg, criteria := schemeCriteria "default", fuzzy := true, v2 := true, extended := true, caseMode := .smart,
+      normalize := true, sort := b sort, tac := b tac, nth := none, withNth := withR,
+      delim := Pat.parseDelim delim, tail := 0, headerLines := 0, isSpace := Tok.isSpace }
+    let query := parseNatList q
+    match Fzf.Filter.run o Generated.slab16Size query shown with
+    | none => { model := "crash", spec := specFail "[C02] matching crashed" }
+    | some out =>
+      let frame (xs : List Str) : Str := xs.flatMap (· ++ [term])
+      let bytes := frame ((if b printq then [query] else []) ++ out)
+      let code := if out.isEmpty then 1 else 0
+      let model := s!"{code} {showNatList bytes}"
+      -- spec (C07/C06): every printed record is an original record (ANSI stripped), byte for byte, each
+      -- followed by the terminator; the query line comes first; exit status 0 iff a result was output
+      let spec : Option (Except String Unit) := match impl with
+        | [c, o'] =>
+          let ob := parseNatList o'
+          let printed := if ob.isEmpty then [] else (splitOn term ob)
+          let printed := if ob.getLast? == some term then printed.dropLast else printed
+          if !ob.isEmpty ∧ ob.getLast? != some term then specFail "[C07] output does not end with the record terminator"
+          else
+            let body := if b printq then printed.drop 1 else printed
+            -- under --print0 / multi-line records a printed record may itself contain the other delimiter
+            let allowed := shown
+            if b printq ∧ printed.head? != some query ∧ !(b print0 == false ∧ query.contains 10) then specFail "[C07] --print-query line is not first"
+            else if term == inDelim ∨ !(shown.any (·.contains term)) then
+              if !body.all (fun r => allowed.contains r) then specFail "[C07] a printed record is not an input record byte for byte"
+              else if c != (if body.isEmpty then "1" else "0") then specFail "[C07] exit status is not 0 iff a result was output"
+              else if body.length != out.length ∧ ctx.prop == "C06" then specFail "[C06] number of items differs from number of records"
+              else specOk
+            else if c != (if out.isEmpty then "1" else "0") then specFail "[C07] exit status is not 0 iff a result was output"
+            else specOk
+        | _ => specFail "[C14] fzf crashed in filter mode"
+      { model, spec,
+        tags := ["proc"] ++ (if b read0 then ["read0"] else []) ++ (if b print0 then ["print0"] else []) ++ (if b printq then ["printq"] else []) ++
+          (if b ansi then ["ansi"] else []) ++ (if withnth != "-" then ["withnth"] else []) ++ (if recs.length > 100 then ["multichunk"] else []) ++
+          (if out.length ≥ 1 ∧ out.length < recs.length then ["nt"] else []) }
   | _, _ => { model := "bad-op" }
 
 end Driver.Filter
